@@ -490,6 +490,13 @@ func dblNear(f float64, w []byte) string {
 	return ""
 }
 
+func b2i(b bool) int {
+	if b {
+		return 1
+	}
+	return 0
+}
+
 func getKind(k string) string {
 	if k == "strbytes" {
 		return "str"
@@ -582,7 +589,7 @@ func sameVal(put, got tval) string {
 
 func runCodec(c *Ctx) error {
 	prop := "C14"
-	c.Res.Rule = "sequences of typed values (ints at type boundaries and random; int32/uint32 wrappers; chars; UTF-8 NUL-free strings to multi-frame length via PutString and PutStringBytes; finite doubles from random bit patterns, subnormals, exponent extremes; raw bytes) encoded by the real message.Message on real streams in both modes; emitted bytes compared with an independent spec encoder; decoded as sent and again after re-cutting the payload bytes into frames at every position (short sequences) or random positions; plus PutBytes/PutString of 1 MiB ± 40 and 2–3 MiB in both modes; distinct by op-sequence hash; non-trivial = ≥2 values or a cut inside a value"
+	c.Res.Rule = "sequences of typed values (ints at type boundaries and random; int32/uint32 wrappers; chars; UTF-8 NUL-free strings to multi-frame length via PutString and PutStringBytes; finite doubles from random bit patterns, subnormals, exponent extremes; raw bytes) encoded by the real message.Message on real streams in both modes; emitted bytes compared with an independent spec encoder; decoded as sent and again after re-cutting the payload bytes into frames at every position (short sequences) or random positions; plus PutBytes/PutString/PutStringBytes/CodeString of 1 MiB ± 40 and 2–3 MiB in both modes, strings read back through GetString and CodeString as sent and after re-cutting the frames (inside the length prefix, in the text, before the terminator), judged by a property oracle on the decoded string and on the value that follows it; distinct by op-sequence hash; non-trivial = ≥2 values or a cut inside a value"
 	var cases []Case
 	n := c.Pick(300, 5000)
 	for i := 0; i < n; i++ {
@@ -734,8 +741,18 @@ func runCodec(c *Ctx) error {
 	}
 	for enc := 0; enc < 2; enc++ {
 		for _, sz := range sizes {
-			for _, kind := range []string{"bytes", "str", "strbytes", "bytes-rest"} {
+			for _, kind := range []string{"bytes", "str", "strbytes", "bytes-rest", "code-str", "str/recut", "strbytes/recut", "code-str/recut"} {
+				// strings re-cut: the same bytes delivered in frames cut elsewhere — inside the leading integer,
+				// inside the length prefix, in the text, right before the terminator
+				doRecut := strings.HasSuffix(kind, "/recut")
+				kind = strings.TrimSuffix(kind, "/recut")
+				if doRecut && !c.Thorough() && sz != MiB && sz != 2*MiB+5 && !(sz == MiB-9 && kind == "str") {
+					continue
+				}
 				if kind == "str" && !c.Thorough() && sz != MiB-9 && sz != MiB-33 && sz != MiB && sz != MiB-41 && sz != MiB-40 {
+					continue
+				}
+				if kind == "code-str" && !c.Thorough() && sz != MiB-40 && sz != MiB-8 && sz != MiB && sz != 2*MiB+5 {
 					continue
 				}
 				// PutStringBytes around the threshold of its large branch (len+1 [+8] > frame payload limit) and
@@ -764,6 +781,26 @@ func runCodec(c *Ctx) error {
 					c.Violate(Violation{Property: "C01", Key: "C01:typed-finish-rejected-large:" + kind + ":" + b01(enc == 1), What: "FinishMessage failed after a large value",
 						Ops: cw.ops, Expected: "ok", Observed: err.Error()})
 				} else {
+					isStr := baseKind(getKind(kind)) == "str"
+					if doRecut {
+						total := 0
+						for _, p := range cw.wire {
+							total += len(p)
+						}
+						cuts := []int{1 + c.Rng.Intn(7)}
+						if enc == 1 {
+							cuts = append(cuts, 9+c.Rng.Intn(7)) // inside the length prefix
+						}
+						for pos := cuts[len(cuts)-1]; ; {
+							pos += 1 + c.Rng.Intn(900*1024)
+							if pos >= total-20 {
+								break
+							}
+							cuts = append(cuts, pos)
+						}
+						cuts = append(cuts, total-9-c.Rng.Intn(3), total-8) // before the terminator; before the trailing integer
+						cw.recut(cuts)
+					}
 					if kind == "strbytes" {
 						var all []byte
 						for _, p := range cw.wire {
@@ -784,16 +821,37 @@ func runCodec(c *Ctx) error {
 						if readRest {
 							rk = "rest"
 						}
+						if isStr && (sz+enc+b2i(doRecut))%2 == 1 {
+							rk = map[string]string{"str": "code-str", "code-str": "str"}[rk] // every sender entry point × GetString / CodeString
+						}
 						g, err2 := cw.get(rk, sz)
 						err = err2
 						if err == nil && (g0.i != 7 || !bytes.Equal(g.s, v.s)) {
 							c.Violate(Violation{Property: "C01", Key: "C01:typed-large-differs:" + kind, What: "large value differs", Ops: cw.ops, Expected: orc.ShowBytes(v.s), Observed: orc.ShowBytes(g.s)})
+						}
+						// ---- property oracle C14 for strings of multi-frame length: "decoding what was encoded returns
+						// ... NUL-free strings exactly ... wherever frame boundaries fall, including in the middle of a
+						// value", in both encryption modes, through PutString / PutStringBytes / CodeString on the
+						// sending side and GetString / CodeString on the receiving side ----
+						if isStr {
+							c.Count(fmt.Sprintf("large-str:%s->%s:enc=%d:recut=%s", kind, rk, enc, b01(doRecut)))
+							if err2 != nil {
+								c.Violate(Violation{Property: "C14", Key: "C14:decode-error:large-" + kind + "->" + rk + ":" + b01(enc == 1), What: fmt.Sprintf("a NUL-free string of %d bytes that the typed sender encoded (spread over several frames) could not be decoded", sz),
+									Ops: cw.ops, Expected: "the string", Observed: "error class " + errKind(err2)})
+							} else if !bytes.Equal(g.s, v.s) {
+								c.Violate(Violation{Property: "C14", Key: "C14:value:large-" + kind + "->" + rk + ":" + b01(enc == 1), What: fmt.Sprintf("a NUL-free string of %d bytes was not decoded exactly", sz),
+									Ops: cw.ops, Expected: orc.ShowBytes(v.s), Observed: orc.ShowBytes(g.s)})
+							}
 						}
 						if err == nil && !readRest {
 							// the value FOLLOWING the large one: a length prefix or terminator that is off by one
 							// leaves the large value intact and shifts everything after it
 							g1, err3 := cw.get("int", 0)
 							err = err3
+							if isStr && err2 == nil && (err3 != nil || g1.i != largePost) {
+								c.Violate(Violation{Property: "C14", Key: "C14:value-after-large-" + kind + ":" + b01(enc == 1), What: "the integer following a multi-frame string was not decoded as sent (the string's length prefix or terminator is off)",
+									Ops: cw.ops, Expected: fmt.Sprint(int64(largePost)), Observed: fmt.Sprint(g1.i, " ", errKind(err3))})
+							}
 							if err == nil && g1.i != largePost {
 								c.Violate(Violation{Property: "C01", Key: "C01:typed-after-large-differs:" + kind + ":" + b01(enc == 1), What: "the value following a large one is not received as sent (the large value consumed too few or too many bytes)",
 									Ops: cw.ops, Expected: fmt.Sprint(int64(largePost)), Observed: fmt.Sprint(g1.i)})
@@ -807,7 +865,7 @@ func runCodec(c *Ctx) error {
 				}
 				c.Distinct(strings.Join(cw.ops, "\n"), true)
 				c.Count("kind:large")
-				cases = append(cases, Case{Label: fmt.Sprintf("large %s %d enc=%d", kind, sz, enc), Ops: cw.ops, Real: cw.real})
+				cases = append(cases, Case{Label: fmt.Sprintf("large %s %d enc=%d recut=%v", kind, sz, enc, doRecut), Ops: cw.ops, Real: cw.real})
 			}
 		}
 	}
